@@ -79,6 +79,26 @@ Theorem C15_coloring_proper : forall img : image, rect img -> exists g : Z -> Z,
 Proof. exact coloring_proper. Qed.
 Print Assumptions C15_coloring_proper.
 
+(* Welsh-Powell bound (Full): the colour table that color_labels reads never exceeds 1 + the number
+   of neighbours of the label (so at most 1 + max degree colours are used) *)
+Theorem C15_coloring_degree_bound : forall (img : image) v_color, rect img -> color_table img = Some v_color ->
+  forall l, 1 <= l <= img_max img ->
+    getl v_color l <= 1 + nth (Z.to_nat (l - 1)) (fst (fst (find_neighbors img))) 0.
+Proof. exact coloring_degree_bound. Qed.
+Print Assumptions C15_coloring_degree_bound.
+
+(* the literal crange/misses arithmetic of the code equals the first-free recursion, and the rows are
+   processed in the order of a sort by non-increasing neighbour count (lexsort([-v_count])) *)
+Theorem C15_misses_is_first_free : forall colors, pick_from colors = first_free 1 colors.
+Proof. exact pick_from_first_free. Qed.
+Print Assumptions C15_misses_is_first_free.
+
+Theorem C15_degree_order : forall (A : Type) (key : A -> Z) (l : list A),
+  StronglySorted (fun a b => key a <= key b) (sort_by key l) /\ (forall y, In y (sort_by key l) <-> In y l) /\
+  length (sort_by key l) = length l.
+Proof. exact @sort_by_sorted. Qed.
+Print Assumptions C15_degree_order.
+
 (* ---- color_labels: the first-free-colour rule never returns a colour of a neighbour ---- *)
 Theorem C15_first_free_spec : forall colors k,
   StronglySorted Z.lt colors -> (forall c, In c colors -> k <= c) ->
